@@ -224,6 +224,26 @@ func runC12(c *Ctx) {
 					map[string]any{"template": t, "rendered": b.String()})
 			}
 		}
+		// (e) the other entry point (what routers evaluate operands and case arguments with) gives the same text, whatever scans
+		// came before it in the process (the scans of (d) just ran with un-escaping off)
+		{
+			var v types.XValue
+			var verr error
+			if !c.Guard("M1-template-value", "panic:template-value", map[string]any{"template": tpl}, func() {
+				v, _, verr = excellent.NewEvaluator().TemplateValue(envs.NewBuilder().Build(), ctx, tpl)
+			}) {
+				got := "<not a text>"
+				if t, isText := v.(*types.XText); isText {
+					got = t.Native()
+				}
+				ok := verr == nil && got == strings.TrimSpace(s)
+				check("M1-template-value", cls, ok)
+				if !ok {
+					c.Fail("monitor", "M1-template-value", "body-escape:template-value", "text with every @ doubled, evaluated as a template value after other scans, is not that text",
+						map[string]any{"template": tpl, "expected": strings.TrimSpace(s), "got": got, "err": fmt.Sprint(verr)})
+				}
+			}
+		}
 		// K: scanner correspondence on the raw string and its variants, both unescape modes
 		if i%2 == 0 {
 			for _, t := range []string{s, tpl, lit, mail} {
